@@ -76,6 +76,8 @@ pub struct GenCfg {
     /// include invalid names ("a:b", "", 256 bytes) in paths
     pub invalid_names: bool,
     pub rich_names: bool,
+    /// probability (0..=100) of a volume built by imggen::mkfs (geometry the library's formatter cannot produce)
+    pub gen_geom_pct: u32,
 }
 
 impl GenCfg {
@@ -105,6 +107,7 @@ impl GenCfg {
             max_io_pct: 250,
             invalid_names: true,
             rich_names: true,
+            gen_geom_pct: 20,
         }
     }
     pub fn fileio() -> GenCfg {
@@ -340,7 +343,7 @@ pub fn decode_op(gc: &GenCfg, nt: &NameTable, cs: u32, r: &RawOp) -> Op {
         }
         K::SetTimes => Op::SetTimes { h, which: (r.a % 3) as u8, ms: (r.x as u64) % Ts::MAX_MS },
         K::Extents => Op::Extents { h },
-        K::Remount => Op::Remount,
+        K::Remount => Op::Remount { how: (r.a & 1) as u8 },
     }
 }
 
@@ -377,7 +380,8 @@ pub struct RawVol {
 
 pub fn decode_vol(gc: &GenCfg, r: &RawVol) -> VolCfg {
     let p = pick(&gc.presets, r.preset);
-    let mut v = VolCfg::from_preset(p);
+    let use_gen = (((r.misc.rotate_left(13) as u32) * 100) >> 16) < gc.gen_geom_pct;
+    let mut v = if use_gen { VolCfg::from_gen_preset((r.preset as usize * crate::vol::GEN_PRESETS.len()) >> 16) } else { VolCfg::from_preset(p) };
     let tiny = ((r.tiny as u32 * 100) >> 16) < gc.tiny_free_pct;
     if tiny {
         let los = [3u16, 6, 10, 20, 40];
